@@ -1258,7 +1258,7 @@ flatcc_builder_vt_ref_t flatcc_builder_create_cached_vtable(flatcc_builder_t *B,
     vd->next = *pvd_head;
     *pvd_head = next;
     if (0 == (vd->vt_ref = flatcc_builder_create_vtable(B, vt, vt_size))) {
-        return 0;
+        goto fail;
     }
     if (vd2) {
         /* Reuse cached copy. The descriptor buffer may have moved since vd2 was found. */
@@ -1270,7 +1270,7 @@ flatcc_builder_vt_ref_t flatcc_builder_create_cached_vtable(flatcc_builder_t *B,
         } else {
             /* Make space in vtable cache. */
             if (!(vt_ = reserve_buffer(B, flatcc_builder_alloc_vb, B->vb_end, vt_size, 0))) {
-                return -1;
+                goto fail;
             }
             vd->vb_start = B->vb_end;
             B->vb_end += vt_size;
@@ -1278,6 +1278,15 @@ flatcc_builder_vt_ref_t flatcc_builder_create_cached_vtable(flatcc_builder_t *B,
         }
     }
     return vd->vt_ref;
+fail:
+    /*
+     * Report failure as the null reference (a negative value would be
+     * taken for a vtable reference) and unlink the descriptor: it has
+     * no cached vtable that later lookups could compare with.
+     */
+    *pvd_head = vd->next;
+    B->vd_end -= (uoffset_t)sizeof(vtable_descriptor_t);
+    return 0;
 }
 
 flatcc_builder_ref_t flatcc_builder_create_table(flatcc_builder_t *B, const void *data, size_t size, uint16_t align,
